@@ -193,6 +193,8 @@ class C05(Prop):
                 lines.append('c05a ' + r)
             for r in res['after']['links']:
                 lines.append('c05l ' + r)
+            for r in res['before']['links']:
+                lines.append('c05lb ' + r)
             specs = dict(RELS[case['shape']][cname])
             rels = ';'.join(specs[n] for n in res['rels']) or '-'
             lines.append('q05 %d %s %d %s' % (TID[cname], pk[0], tx, rels))
@@ -233,7 +235,7 @@ class C05(Prop):
                 continue
             ans = answers[k]
             k += 1
-            target, relbits, frame = ans.split(' ')
+            target, relbits, frame, modelbits = ans.split(' ')
             det = {'target': res['target'], 'rels': res['rels'], 'before': res['before']['live'], 'after': res['after']['live'],
                    'links_after': res['after']['links']}
             if target != '1':
@@ -241,6 +243,12 @@ class C05(Prop):
             # a DELETE version has no related state to restore: the entity is simply absent afterwards
             if op != 2 and relbits != '-' and set(relbits) != {'1'}:
                 out.violations.append({'clause': 'C05.relationship:' + '+'.join(res['rels']), 'detail': det})
+            # correspondence: the model functions revertM2M / revertM2O run on the rows BEFORE the revert give the
+            # implementation's links / related rows
+            if op != 2 and modelbits != '-' and set(modelbits) != {'1'}:
+                out.mismatches.append({'stream': 'revert model (revertM2M / revertM2O) vs implementation for %s %s' % (res['target'], res['rels']),
+                                       'impl': {'links_after': res['after']['links'], 'live_after': res['after']['live']},
+                                       'model': {'links_before': res['before']['links'], 'live_before': res['before']['live']}})
             if res.get('repeated'):
                 out.tags.append('repeated_revert')
                 frame = '1'      # the frame of the second revert is not judged (the entity was edited in between)
